@@ -264,7 +264,7 @@ PROPS["C10"] = {
 PROPS["C02"] = {
     "model_is_spec": ["hist", "pkgreg"],
     "lean_module": "LispModel.Props.C02",
-    "tie_modules": ["LispModel.Tie.Appends"],
+    "tie_modules": ["LispModel.Tie.Appends", "LispModel.Tie.ApplyArgs"],
     "engines": [{"name": "hist", "quick": 4000, "thorough": 100000},
                 {"name": "pkgreg", "quick": 1500, "thorough": 40000},
                 {"name": "meta", "quick": 3000, "thorough": 60000},
